@@ -198,4 +198,37 @@ MUTANTS = [
      "edits": [(D, "sgr_color(groups.by_ref().take(4))", "sgr_color(&mut groups)")]},
     {"id": "C06-benign-take-via-ref-mut", "prop": "C06", "benign": True,
      "edits": [(D, "sgr_color(groups.by_ref().take(4))", "sgr_color((&mut groups).take(4))")]},
+    # ---- UTF8-LANG: the UTF-8 grammar of the decoders (utf8_nfa) must admit the RFC 3629 encoding of every character
+    # the seed C06-D: exclusive range drops lead byte 0xF4 (plane 16)
+    {"id": "C06-utf8-four-lead-exclusive-range", "prop": "C06", "expect": "UTF8-LANG/UTF8Matcher(NotEscape)/4-byte-lead-f4",
+     "edits": [(D, "let utf8_four = NFA::predicate(|b| b >> 3 == 0b11110);", "let utf8_four = NFA::predicate(|b| (0xf0..0xf4).contains(&b));")]},
+    {"id": "C06-utf8-four-lead-in-automaton", "prop": "C06", "expect": "UTF8-LANG/TTY_COMMAND_AUTOMATA/4-byte-lead-f4",
+     "edits": [(D, "let utf8_four = NFA::predicate(|b| b >> 3 == 0b11110);", "let utf8_four = NFA::predicate(|b| b >= 0xf0 && b < 0xf4);")]},
+    {"id": "C06-utf8-two-lead-exclusive-range", "prop": "C06", "expect": "UTF8-LANG/UTF8Matcher(NotEscape)/2-byte-lead-df",
+     "edits": [(D, "let utf8_two = NFA::predicate(|b| b >> 5 == 0b110);", "let utf8_two = NFA::predicate(|b| (0xc2..0xdf).contains(&b));")]},
+    {"id": "C06-utf8-three-lead-shift", "prop": "C06", "expect": "UTF8-LANG/UTF8DFA/3-byte-lead-e0",
+     "edits": [(D, "let utf8_three = NFA::predicate(|b| b >> 4 == 0b1110);", "let utf8_three = NFA::predicate(|b| b >> 4 == 0b1110 && b & 0x0f != 0);")]},
+    {"id": "C06-utf8-tail-exclusive-range", "prop": "C06", "expect": "UTF8-LANG/UTF8Matcher(NotEscape)/2-byte-continuation-after-c2..df",
+     "edits": [(D, "let utf8_tail = NFA::predicate(|b| b >> 6 == 0b10);", "let utf8_tail = NFA::predicate(|b| (0x80..0xbf).contains(&b));")]},
+    {"id": "C06-utf8-notescape-drops-controls", "prop": "C06", "expect": "UTF8-LANG/UTF8Matcher(NotEscape)/1-byte-lead-00..1a",
+     "edits": [(D, "UTF8Mode::NotEscape => NFA::predicate(|b| b >> 7 == 0b0 && b != b'\\x1b'),", "UTF8Mode::NotEscape => NFA::predicate(|b| b >> 7 == 0b0 && b > b'\\x1b'),")]},
+    {"id": "C06-utf8-command-uses-printable", "prop": "C06", "expect": "UTF8-LANG/UTF8Matcher(Printable)/1-byte-lead-",
+     "edits": [(D, "UTF8Matcher::new(UTF8Mode::Printable)\n", "UTF8Matcher::new(UTF8Mode::NotEscape)\n"),
+               (D, "UTF8Matcher::new(UTF8Mode::NotEscape).map(TerminalCommand::Char)", "UTF8Matcher::new(UTF8Mode::Printable).map(TerminalCommand::Char)")]},
+    # a predicate form the grammar evaluator does not fold is an anchor (fail closed), not a crash and not silence
+    {"id": "C06-utf8-unfoldable-predicate", "prop": "C06", "expect": "UTF8-LANG/ANCHOR/grammar-",
+     "edits": [(D, "let utf8_four = NFA::predicate(|b| b >> 3 == 0b11110);", "let utf8_four = NFA::predicate(|b| b.reverse_bits() & 0x1f == 0x0f);")]},
+    # the same classes written differently, or tightened towards RFC 3629 without losing a scalar value
+    {"id": "C06-benign-utf8-four-inclusive-range", "prop": "C06", "benign": True,
+     "edits": [(D, "let utf8_four = NFA::predicate(|b| b >> 3 == 0b11110);", "let utf8_four = NFA::predicate(|b| (0xf0..=0xf7).contains(&b));")]},
+    {"id": "C06-benign-utf8-four-mask", "prop": "C06", "benign": True,
+     "edits": [(D, "let utf8_four = NFA::predicate(|b| b >> 3 == 0b11110);", "let utf8_four = NFA::predicate(|b| b & 0xf8 == 0xf0);")]},
+    {"id": "C06-benign-utf8-four-rfc-tight", "prop": "C06", "benign": True,
+     "edits": [(D, "let utf8_four = NFA::predicate(|b| b >> 3 == 0b11110);", "let utf8_four = NFA::predicate(|b| matches!(b, 0xf0..=0xf4));")]},
+    {"id": "C06-benign-utf8-four-leading-ones", "prop": "C06", "benign": True,
+     "edits": [(D, "let utf8_four = NFA::predicate(|b| b >> 3 == 0b11110);", "let utf8_four = NFA::predicate(|b| b.leading_ones() == 4);")]},
+    {"id": "C06-benign-utf8-two-no-overlong", "prop": "C06", "benign": True,
+     "edits": [(D, "let utf8_two = NFA::predicate(|b| b >> 5 == 0b110);", "let utf8_two = NFA::predicate(|b| (0xc2..=0xdf).contains(&b));")]},
+    {"id": "C06-benign-utf8-tail-signed-compare", "prop": "C06", "benign": True,
+     "edits": [(D, "let utf8_tail = NFA::predicate(|b| b >> 6 == 0b10);", "let utf8_tail = NFA::predicate(|b| (b as i8) < -64);")]},
 ]
